@@ -270,8 +270,8 @@ def expr(n):
         (c,) = n.children
         op = attr(n, "op")
         e = expr(c)
-        if (op == "Negative" and c.tag == "UntypedIntegerLiteral" and not re.match(r"0[xb]", attr(c, "src"))
-                and 0 < e[1] <= I128_MAX and (e[2] == "_" or e[2][1] in SIGNED)):
+        if (op == "Negative" and c.tag == "UntypedIntegerLiteral" and 0 < e[1] <= I128_MAX
+                and ((e[2] == "_" and not re.match(r"0[xb]", attr(c, "src"))) or (e[2] != "_" and e[2][1] in SIGNED))):
             # the first-generation parser folds the sign into a signed literal
             return ["int", -e[1], e[2]]
         return ["un", op, e]
